@@ -29,12 +29,42 @@ import (
 // takes tape-drawn decisions or forwards to a real adaptive shedder, in which case
 // the general oracle judges every decision and the in-flight conservation.
 
+// contexts of a request
+const (
+	cxBackground = iota
+	cxLive       // cancellable, outlives the request
+	cxCancelled  // cancelled before the request is served
+	cxExpired    // deadline passed before the request is served
+	cxDeadline   // deadline cxd after the start of the request
+	cxCancelAt   // cancelled by another task (the caller went away) cxd after the start
+	nCx
+)
+
+// panic values of a handler
+const (
+	pvString = iota
+	pvError
+	pvDeadlineError // an error wrapping context.DeadlineExceeded
+	pvRuntime       // a runtime error (write to a nil map)
+	pvAbort         // http.ErrAbortHandler
+	nPv
+)
+
 type req struct {
 	id       int
 	rpc      bool
 	fakeShed bool
 	behave   int
 	dur      time.Duration
+	pval     int           // what a panicking handler panics with
+	cx       int           // the context the request carries
+	cxd      time.Duration // cxDeadline / cxCancelAt: when it ends
+	viaNil   bool          // http only: through SheddingHandler(nil, ...), the documented "no shedder" form
+	// what the handler did
+	wrote503 bool  // http: 503 is the status the handler answered with
+	retErr   error // rpc: the error the handler returned
+	open     bool  // whether that counts as a failure under load is left open
+	closed   bool  // the request has been served
 	// observations
 	allows    int
 	shed      bool
@@ -98,6 +128,24 @@ func (p *countPromise) resolved(pass bool) {
 func (p *countPromise) Pass() { p.resolved(true) }
 func (p *countPromise) Fail() { p.resolved(false) }
 
+// panicWith returns the value a handler panics with (pvRuntime: panics right here with
+// a genuine runtime.Error).
+func panicWith(r *simrt.Run, pval int) any {
+	r.Probe([]string{"panic-value-string", "panic-value-error", "panic-value-deadline-error", "panic-value-runtime-error", "panic-value-abort-handler"}[pval])
+	switch pval {
+	case pvError:
+		return errors.New("handler failed")
+	case pvDeadlineError:
+		return fmt.Errorf("handler gave up: %w", context.DeadlineExceeded)
+	case pvRuntime:
+		var m map[string]int
+		m["x"]++
+	case pvAbort:
+		return http.ErrAbortHandler
+	}
+	return "handler-panic"
+}
+
 func wrappers(e *env, tier string) {
 	r, t := e.r, e.r.Tape
 	handler.VerifC02ResetSheddingStat()
@@ -115,14 +163,31 @@ func wrappers(e *env, tier string) {
 	for i := range plans {
 		n := t.Range(1, maxR)
 		for j := 0; j < n; j++ {
-			q := &req{id: len(all), rpc: t.Bool(), fakeShed: t.Chance(1, 4), behave: t.Intn(8)}
+			q := &req{id: len(all), rpc: t.Bool(), fakeShed: t.Chance(1, 4), behave: t.Intn(12)}
 			if t.Chance(1, 3) {
 				q.dur = time.Duration(t.Range(1, 300)) * time.Millisecond
+			}
+			if q.behave == 4 || q.behave == 5 {
+				q.pval = t.Intn(nPv)
+			}
+			if t.Chance(1, 3) {
+				q.cx = t.Range(1, nCx-1)
+				if q.cx == cxDeadline || q.cx == cxCancelAt {
+					// before, around and after the end of the handler
+					q.cxd = []time.Duration{time.Duration(t.Range(1, 999)), q.dur / 2, q.dur, q.dur + 1, time.Duration(t.Range(1, 400)) * time.Millisecond}[t.Intn(5)]
+					if q.cxd <= 0 {
+						q.cxd = 1
+					}
+				}
+			}
+			if !q.rpc && t.Chance(1, 8) {
+				q.viaNil = true
 			}
 			all = append(all, q)
 			plans[i] = append(plans[i], q)
 		}
 	}
+	maybeDisableLog(e)
 	cs := &countShedder{e: e, reqs: map[int]*req{}}
 	if real {
 		cs.w = newWorld(e, cfg, 0, false)
@@ -130,8 +195,9 @@ func wrappers(e *env, tier string) {
 	}
 	metrics := stat.VerifC02NewMetrics(fmt.Sprintf("c02-%d", t.Pos()))
 	mw := handler.SheddingHandler(cs, metrics)
+	mwNil := handler.SheddingHandler(nil, metrics)
 	icpt := zrpc.VerifC02UnarySheddingInterceptor(cs, metrics)
-	r.Sample(map[string]any{"scenario": "wrappers", "real_shedder_behind_counter": real, "clients": nClients, "requests": len(all), "first_client": fmt.Sprintf("%+v", plans[0][0])})
+	r.Sample(map[string]any{"scenario": "wrappers", "real_cpu_predicate": e.realChk, "real_shedder_behind_counter": real, "clients": nClients, "requests": len(all), "first_client": fmt.Sprintf("%+v", plans[0][0])})
 
 	work := func(q *req) {
 		q.nextRuns++
@@ -141,6 +207,14 @@ func wrappers(e *env, tier string) {
 			r.Yield()
 		}
 	}
+	// waitCtx: the handler works until its context is over (at most 400 ms longer)
+	waitCtx := func(ctx context.Context) error {
+		for i := 0; i < 40 && ctx.Err() == nil; i++ {
+			r.Sleep(10 * time.Millisecond)
+		}
+		return ctx.Err()
+	}
+	panicValue := func(q *req) any { return panicWith(r, q.pval) }
 	next := http.HandlerFunc(func(rw http.ResponseWriter, hr *http.Request) {
 		q := cs.reqs[r.CurrentID()]
 		work(q)
@@ -148,45 +222,112 @@ func wrappers(e *env, tier string) {
 		case 1:
 			rw.WriteHeader(http.StatusOK)
 		case 2:
+			q.wrote503 = true
 			rw.WriteHeader(http.StatusServiceUnavailable)
 		case 3:
 			rw.WriteHeader(http.StatusInternalServerError)
 		case 4:
 			q.kNextEnd = e.tick()
-			panic("handler-panic")
+			panic(panicValue(q))
 		case 5:
 			rw.WriteHeader(http.StatusServiceUnavailable)
 			q.kNextEnd = e.tick()
-			panic("handler-panic-after-503")
+			panic(panicValue(q))
 		case 6:
 			rw.WriteHeader(http.StatusNotFound)
 		case 7:
 			rw.WriteHeader(http.StatusBadRequest)
+		case 8:
+			// a body without an explicit status: 200
+			_, _ = rw.Write([]byte("hello"))
+		case 9:
+			// a second WriteHeader is ignored by net/http: the client sees 200
+			rw.WriteHeader(http.StatusOK)
+			rw.WriteHeader(http.StatusServiceUnavailable)
+			q.open = true
+		case 10:
+			q.wrote503 = true
+			rw.WriteHeader(http.StatusServiceUnavailable)
+			_, _ = rw.Write([]byte("busy"))
+			if f, ok := rw.(http.Flusher); ok {
+				f.Flush()
+			}
+		case 11:
+			// works until the caller's context is over; a timeout is answered with 503
+			if err := waitCtx(hr.Context()); errors.Is(err, context.DeadlineExceeded) {
+				q.wrote503 = true
+				rw.WriteHeader(http.StatusServiceUnavailable)
+			}
 		}
 		q.kNextEnd = e.tick()
 	})
 	h := mw(next)
+	hNil := mwNil(next)
 	rpcHandler := func(ctx context.Context, in any) (any, error) {
 		q := cs.reqs[r.CurrentID()]
 		work(q)
 		defer func() { q.kNextEnd = e.tick() }()
 		switch q.behave {
 		case 1:
-			return nil, context.DeadlineExceeded
+			q.retErr = context.DeadlineExceeded
 		case 2:
-			return nil, fmt.Errorf("wrapped: %w", context.DeadlineExceeded)
+			q.retErr = fmt.Errorf("wrapped: %w", context.DeadlineExceeded)
 		case 3, 7:
-			return nil, errors.New("business error")
+			q.retErr = errors.New("business error")
 		case 4, 5:
-			panic("rpc-handler-panic")
+			panic(panicValue(q))
+		case 8:
+			q.retErr = context.Canceled
+		case 9:
+			// the deadline of a call further downstream, as gRPC reports it
+			q.retErr, q.open = status.Error(codes.DeadlineExceeded, "downstream deadline exceeded"), true
+		case 10:
+			// the shedder's own sentinel, handed up from a nested call
+			q.retErr = load.ErrServiceOverloaded
+		case 11:
+			// works until the caller's context is over and reports how it ended
+			q.retErr = waitCtx(ctx)
+		}
+		if q.retErr != nil {
+			return nil, q.retErr
 		}
 		return "ok", nil
+	}
+	var cancellers []*simrt.Task
+	openCtx := func(q *req) (context.Context, context.CancelFunc) {
+		if q.cx != cxBackground {
+			r.Probe([]string{"", "ctx-live", "ctx-cancelled-before", "ctx-deadline-passed-before", "ctx-deadline-during", "ctx-cancelled-during"}[q.cx])
+		}
+		switch q.cx {
+		case cxLive:
+			return context.WithCancel(context.Background())
+		case cxCancelled:
+			ctx, cancel := context.WithCancel(context.Background())
+			cancel()
+			return ctx, cancel
+		case cxExpired:
+			return context.WithDeadline(context.Background(), time.Now().Add(-time.Millisecond))
+		case cxDeadline:
+			return context.WithDeadline(context.Background(), time.Now().Add(q.cxd))
+		case cxCancelAt:
+			ctx, cancel := context.WithCancel(context.Background())
+			cancellers = append(cancellers, r.Go("caller-goes-away", func() {
+				r.Sleep(q.cxd)
+				if !q.closed {
+					r.Probe("ctx-ended-while-request-ran")
+					cancel() // nothing waits on this context in a raw channel operation: handlers poll it
+				}
+			}))
+			return ctx, cancel
+		}
+		return context.Background(), func() {}
 	}
 	serve := func(q *req) {
 		tid := r.CurrentID()
 		cs.reqs[tid] = q
 		var code int
 		var rpcErr error
+		ctx, cancel := openCtx(q)
 		func() {
 			defer func() {
 				if rec := recover(); rec != nil {
@@ -194,19 +335,36 @@ func wrappers(e *env, tier string) {
 				}
 			}()
 			if q.rpc {
-				_, rpcErr = icpt(context.Background(), "req", &grpc.UnaryServerInfo{FullMethod: "/svc/method"}, rpcHandler)
+				_, rpcErr = icpt(ctx, "req", &grpc.UnaryServerInfo{FullMethod: "/svc/method"}, rpcHandler)
 			} else {
 				rec := httptest.NewRecorder()
-				h.ServeHTTP(rec, httptest.NewRequest(http.MethodGet, "/x", nil))
-				code = rec.Code
+				hh := h
+				if q.viaNil {
+					hh = hNil
+				}
+				defer func() { code = rec.Code }()
+				hh.ServeHTTP(rec, httptest.NewRequest(http.MethodGet, "/x", nil).WithContext(ctx))
 			}
 		}()
+		q.closed = true
+		if q.cx == cxDeadline && ctx.Err() != nil {
+			r.Probe("ctx-ended-while-request-ran")
+		}
+		cancel()
 		delete(cs.reqs, tid)
 		r.Ev("served", int64(q.id), b2i(q.shed), int64(q.pass), int64(q.fail))
 		r.Probe("oracle")
 		kind := "http"
 		if q.rpc {
 			kind = "rpc"
+		}
+		if q.viaNil {
+			// no shedder: every request reaches its handler, nobody is asked
+			r.Probe("wrapper-no-shedder")
+			if q.allows != 0 || q.nextRuns != 1 || q.pass+q.fail != 0 {
+				r.Fail("wrapper-nil-shedder", "http request %d through SheddingHandler(nil): Allow consulted %d times, handler ran %d times, %d resolutions", q.id, q.allows, q.nextRuns, q.pass+q.fail)
+			}
+			return
 		}
 		if q.allows != 1 {
 			r.Fail("wrapper-allow-count", "%s request %d consulted Allow %d times", kind, q.id, q.allows)
@@ -239,14 +397,20 @@ func wrappers(e *env, tier string) {
 			r.Fail("promise-early", "%s request %d: promise resolved before the handler ended", kind, q.id)
 		case q.panicked:
 			// what a panicking handler counts as is left open
+		case q.open:
+			// whether this answer counts as a failure under load is left open
+			r.Probe("wrapper-outcome-left-open")
 		case !q.rpc:
 			// only an answer of 503 tells the shedder that the request failed under load
-			if wantFail := q.behave == 2; wantFail != (q.fail == 1) {
+			if wantFail := q.wrote503; wantFail != (q.fail == 1) {
 				r.Fail("wrapper-outcome-http", "http request %d answered %d, promise resolved with Pass=%d Fail=%d (503 is the only status that counts as Fail)", q.id, code, q.pass, q.fail)
 			}
 		default:
 			// only a deadline error (also wrapped) tells the shedder that the request failed under load
-			if wantFail := q.behave == 1 || q.behave == 2; wantFail != (q.fail == 1) {
+			if q.retErr != nil && q.behave >= 8 {
+				r.Probe("rpc-error-identity-" + []string{"canceled", "", "own-sentinel", "ctx-err"}[q.behave-8])
+			}
+			if wantFail := errors.Is(q.retErr, context.DeadlineExceeded); wantFail != (q.fail == 1) {
 				r.Fail("wrapper-outcome-rpc", "rpc request %d returned %v, promise resolved with Pass=%d Fail=%d (a deadline error is the only one that counts as Fail)", q.id, rpcErr, q.pass, q.fail)
 			}
 		}
@@ -264,6 +428,7 @@ func wrappers(e *env, tier string) {
 		}))
 	}
 	ok := r.JoinTimeout(2*time.Hour, tasks...)
+	ok = ok && r.JoinTimeout(2*time.Hour, cancellers...)
 	r.MarkBackground(func(name string) bool {
 		return strings.HasPrefix(name, "core/load/sheddingstat.go") || strings.HasPrefix(name, "core/executors/periodicalexecutor.go")
 	})
